@@ -543,17 +543,30 @@ def glob_scenarios(tier, first_sid, rnd):
             out.append({"nodes": nodes, "follow": False, "min": -1, "max": -1, "glob": C.cps(g), "rooted": True, "rooted_rep": True, "confine": True,
                         "walk_from": index["root"], "base": "abs", "layers": [], "tree": tname, "skip_trace": True,
                         "desc": "rooted glob </first:1,2>/<rest of abs>/%s over tree %s (rooted through a repetition)" % (g, tname)})
-        # a base inside the tree, and prefixes with . and ..
+        # (below) a base inside the tree, and prefixes with . and ..
         for g, base in (("**", "root/a"), ("*/*", "root/a"), ("b/**", "root/a"), ("./a/**", "root"), ("../root/a/**", "root"),
                         ("../b/**", "root/a"), ("a/../b/**", "root"), ("./**", "root"), ("../**", "root/a")):
             if base in index:
                 out.append({"nodes": nodes, "follow": False, "min": -1, "max": -1, "glob": C.cps(g), "rooted": False,
                             "walk_from": index[base], "base": "abs", "layers": [], "tree": tname,
                             "desc": "glob %r over tree %s from %s" % (g, tname, base)})
+    # names that are not valid UTF-8 (and names with a backslash or a new line): a component is matched through its
+    # lossy conversion, it is never dropped; judged by the yielded set (the trace names paths by their lossy text)
+    nodes, index = tree(TREES["bytes"])
+    for g in ("*/*.txt", "a/*.txt", "a/*/*.txt", "*/f", "?dir/*", "a/caf?.txt", "a/x?/g.txt", "*", "a/*", "a/?\\?/*.txt"):
+        out.append({"nodes": nodes, "follow": False, "min": -1, "max": -1, "glob": C.cps(g), "rooted": False,
+                    "walk_from": index["root"], "base": "abs", "layers": [], "tree": "bytes", "skip_trace": True,
+                    "desc": "glob %r over tree bytes (names that are not UTF-8)" % g})
     for i, h in enumerate(out):
         h["sid"] = first_sid + i
         h["origin"] = "library"
     return out
+
+
+def lossy(t):
+    """the text that to_string_lossy gives for a name of the scenario trees: every raw byte 0x80..0xFF (written as
+    U+E080..U+E0FF in the tree specifications; here always a single invalid byte) becomes U+FFFD"""
+    return "".join("\ufffd" if 0xE080 <= ord(c) <= 0xE0FF else c for c in t)
 
 
 PRODUCT_GLOBS = {
